@@ -38,6 +38,7 @@ def jobs(tier):
         out.append({"name": "loaded/%s" % fmt, "kind": "loaded", "fmt": fmt})
     out.append({"name": "tree-transfer", "kind": "transfer"})
     out.append({"name": "methods-and-item-defaults", "kind": "extras"})
+    out.append({"name": "transient-env", "kind": "transient"})
     return out
 
 
@@ -365,8 +366,82 @@ def _tree_transfer(job, ctx):
     ctx.sample({"tree_transfer": [m[0] for m in muts]})
 
 
+def _transient_env(job, ctx):
+    """bound environment variables that are set only while ONE configuration is built / reset: the value they supply
+    belongs to that configuration; the schema (declared defaults included), configurations built earlier and
+    configurations built after the variables are gone are as if the variables had never existed"""
+    import os
+    import cincoconfig as cc
+    only = job.get("only")
+    KINDS = {"int": (lambda **kw: cc.IntField(default=1, **kw), "42", 42, 1),
+             "str": (lambda **kw: cc.StringField(default="dflt", **kw), "from-env", "from-env", "dflt"),
+             "bool": (lambda **kw: cc.BoolField(default=False, **kw), "yes", True, False),
+             "nodefault": (lambda **kw: cc.IntField(**kw), "7", 7, None),
+             "callable": (lambda **kw: cc.IntField(default=lambda: 3, **kw), "8", 8, 3)}
+    for kind, (mk, raw, envval, dflt) in KINDS.items():
+        for binding in ("prefix", "named"):
+            for during in ("build", "reset", "build+reset"):
+                ident = [kind, binding, during]
+                if only is not None and only != ident:
+                    continue
+                for k in [k for k in os.environ if k.startswith("C13T")]:
+                    del os.environ[k]
+                s = cc.Schema(env="C13T") if binding == "prefix" else cc.Schema()
+                paths = ("f", "sub.f", "sub.deep.f")
+                for p in paths:
+                    s[p] = mk(**({"env": "C13TN_" + p.replace(".", "_").upper()} if binding == "named" else {}))
+                item = cc.Schema()
+                item.f = mk(env="C13TI_F")
+                s.items = cc.ListField(item)
+                names = [s._fields["f"].env, s.sub._fields["f"].env, s.sub.deep._fields["f"].env, "C13TI_F"]
+                pristine = W.schema_snap(s)
+                before = s()
+                before.items = [{}]
+                case = {"kind": "transient", "jobparams_full": {k: v for k, v in job.items() if k not in ("single", "only")}, "only": ident, "job": job["name"]}
+                fp = "C13|transient-env|%s|%s|%s|" % (kind, binding, during)
+                ctx.transitions += 1
+                for n in names:
+                    os.environ[n] = raw
+                try:
+                    a = s() if "build" in during else before
+                    if "reset" in during:
+                        a.f = envval if kind != "bool" else False
+                        cc.reset_value(a, "f")
+                        cc.reset_value(a.sub, "f")
+                        cc.reset_value(a.sub.deep, "f")
+                    a.items = [{}]
+                    got_a = [a.f, a.sub.f, a.sub.deep.f, a.items[0].f]
+                finally:
+                    for n in names:
+                        os.environ.pop(n, None)
+                ctx.case(("transient", kind, binding, during), "transient:%s" % during, True)
+                if got_a != [envval] * 4:
+                    ctx.violation(fp + "variable-not-applied", "with the variables set, the configuration reads %r (expected %r everywhere)" % (got_a, envval), case)
+                if W.schema_snap(s) != pristine:
+                    diff = [x[0] for x, y in zip(W.schema_snap(s), pristine) if x != y]
+                    ctx.violation(fp + "schema-changed", "after a configuration was %s under set variables the schema changed at %s" % (during, diff[:4]), case)
+                later = s()
+                later.items = [{}]
+                got_l = [later.f, later.sub.f, later.sub.deep.f, later.items[0].f]
+                if got_l != [dflt] * 4:
+                    ctx.violation(fp + "later-config-differs", "a configuration built after the variables were removed reads %r, the declared default is %r" % (got_l, dflt), case)
+                if during == "build":
+                    before.f = envval if kind != "bool" else True
+                    cc.reset_value(before, "f")
+                    cc.reset_value(before.sub.deep, "f")
+                    if [before.f, before.sub.deep.f] != [dflt, dflt]:
+                        ctx.violation(fp + "earlier-config-reset-differs", "resetting fields of a configuration built earlier gives %r, the declared default is %r" % ([before.f, before.sub.deep.f], dflt), case)
+    ctx.states += 1
+    ctx.traces += 1
+
+
 def run_job(job, ctx):
     single = job.get("single")
+    if single and single.get("kind") == "transient":
+        j = dict(single["jobparams_full"]); j["only"] = single["only"]
+        return _transient_env(j, ctx)
+    if job.get("kind") == "transient":
+        return _transient_env(job, ctx)
     if single and single.get("kind") == "extras":
         j = dict(single["jobparams_full"]); j["only"] = single["only"]
         return _methods_and_item_defaults(j, ctx)
